@@ -98,7 +98,7 @@ def execute(plan, scratch_root=None, decisions=None, jitters=None):
         if behave == 'raise':
             sched.probe('fault_fired:task_raises')
             raise OSError('injected task failure')
-        return tid * 10
+        return None if tid % 4 == 3 else tid * 10  # None is a result like any other
 
     cur = {'i': None, 'kind': None}
     try:
@@ -213,7 +213,7 @@ def execute(plan, scratch_root=None, decisions=None, jitters=None):
                 if [t for t in put_ok if t in executed] != executed:
                     raise Violation('worker.not_fifo', f'executed={executed} put={put_ok}', facts, i)
                 for t, r in results.items():
-                    if r != t * 10:
+                    if r != (None if t % 4 == 3 else t * 10):
                         raise Violation('worker.wrong_result', f'results[{t}]={r}', facts, i)
             if not exited:
                 sched.begin_op()
